@@ -4,6 +4,8 @@
 (* of C18).  A stream is a sequence of lines; a line is one of              *)
 (*   ha  ">s1"                       header, ID only                         *)
 (*   hb  ">s2 some description"      header with a description               *)
+(*   ht  ">s3<TAB>tabbed header"     header whose ID ends at a tab            *)
+(*   hl  "> s4 after a blank"        header with blanks before the ID        *)
 (*   hn  ">"      hs  "> "           header without an ID                    *)
 (*   AC ac N- GT  two-symbol sequence lines (ac: lower case)                 *)
 (*   A            a one-symbol sequence line (makes widths differ)           *)
@@ -16,12 +18,13 @@
 (***************************************************************************)
 EXTENDS Alphabet, SequencesExt
 
-Kinds == {"ha", "hb", "hn", "hs", "AC", "ac", "N-", "GT", "A", "AZ", "bl"}
-IsHeader(k) == k \in {"ha", "hb", "hn", "hs"}
-HasId(k) == k \in {"ha", "hb"}
+Kinds == {"ha", "hb", "ht", "hl", "hn", "hs", "AC", "ac", "N-", "GT", "A", "AZ", "bl"}
+IsHeader(k) == k \in {"ha", "hb", "ht", "hl", "hn", "hs"}
+HasId(k) == k \in {"ha", "hb", "ht", "hl"}
 IsSeq(k) == k \in {"AC", "ac", "N-", "GT", "A", "AZ"}
-IdOf(k) == IF k = "ha" THEN "s1" ELSE IF k = "hb" THEN "s2" ELSE ""
-DescOf(k) == IF k = "ha" THEN "s1" ELSE IF k = "hb" THEN "s2 some description" ELSE IF k = "hs" THEN " " ELSE ""
+IdOf(k) == IF k = "ha" THEN "s1" ELSE IF k = "hb" THEN "s2" ELSE IF k = "ht" THEN "s3" ELSE IF k = "hl" THEN "s4" ELSE ""   \* first whitespace-delimited token
+DescOf(k) == IF k = "ha" THEN "s1" ELSE IF k = "hb" THEN "s2 some description" ELSE IF k = "ht" THEN "s3\ttabbed header"
+             ELSE IF k = "hl" THEN " s4 after a blank" ELSE IF k = "hs" THEN " " ELSE ""                                     \* the whole header
 SymsOf(k) == CASE k = "AC" -> <<"A", "C">> [] k = "ac" -> <<"A", "C">> [] k = "N-" -> <<"N", "-">> [] k = "GT" -> <<"G", "T">>
                [] k = "A" -> <<"A">> [] k = "AZ" -> <<"A", "Z">> [] OTHER -> <<>>
 Bad(k) == k = "AZ"
